@@ -41,6 +41,17 @@ def _load_corpus(file, fmt=None, frame=None):
     return copy.deepcopy(_CACHE[key])
 
 
+def all_frames(file, fmt=None):
+    """All frames of a corpus trajectory (deep copies)."""
+    _load_corpus(file, fmt, 0)
+    out = []
+    i = 0
+    while (file, fmt, i) in _CACHE:
+        out.append(copy.deepcopy(_CACHE[(file, fmt, i)]))
+        i += 1
+    return out
+
+
 def _arr(v, dtype=None):
     return None if v is None else np.array(v, dtype=dtype)
 
